@@ -53,6 +53,11 @@ pub fn run_corpus(
     // acceptance depend on the build profile
     let mut failed_in_dev: Option<BTreeSet<String>> = None;
     for profile in &plan.profiles {
+        // derived code that recursed without bound in the dev build (caught there as a death by signal) is an endless
+        // loop in the release build, which would only be seen by the watchdog
+        if out.violations.iter().any(|v| v.kind.starts_with("abort:")) {
+            break;
+        }
         let mut cfg = CrateCfg::new(env, id, sub);
         cfg.strum_features = plan.strum_features.clone();
         cfg.profile = profile.to_string();
@@ -203,12 +208,24 @@ pub fn run_corpus(
         let timeout = Duration::from_secs(if tier == "thorough" { 40 * 60 } else { 10 * 60 });
         let sr = run_shards(env, &cfg, &em, items, &input, timeout);
         if !sr.timed_out.is_empty() {
-            out.inconclusive = Some(format!("shard watchdog: shards {:?}", sr.timed_out));
+            out.inconclusive = Some(format!("shard watchdog: shards {:?} (exercising {:?} when stopped)", sr.timed_out, sr.hung_on));
             return;
         }
         if !sr.crashed.is_empty() {
             out.inconclusive = Some(format!("shard crashed: {:?}", sr.crashed));
             return;
+        }
+        // the process died of a signal (unbounded recursion, abort) while exercising one enum, and again when given
+        // that enum alone: the derived code of that enum neither returned nor panicked
+        for (name, msg) in &sr.aborted {
+            let spec = items.iter().find(|i| &i.spec.name == name).map(|i| i.spec.clone());
+            out.violations.push(Violation {
+                kind: "abort:process-died-while-exercising-enum".into(),
+                enum_name: name.clone(),
+                spec,
+                detail: json!({"message": msg}),
+                profile: profile.to_string(),
+            });
         }
         for r in &sr.reports {
             out.agg.add(r);
